@@ -136,3 +136,141 @@ K("c15k-reorder-set-mode",
 K("c15k-table-respelled",
   ("data", "DAYS_IN_MONTHS_360 = 12 * (30,)",
    "DAYS_IN_MONTHS_360 = (30,) * 12"))
+
+
+# ===================================================== C01 / C05 / C06 / C20
+# --- R09 carry agreement
+B("c01-ordinal-carry-next-year", ["C01", "C06", "C20"], ["R09"],
+  ("data", "                days_in_this_year = get_days_in_year(self._year)\n"
+           "                self._day_of_year -= days_in_this_year",
+   "                days_in_next_year = get_days_in_year(self._year + 1)\n"
+   "                self._day_of_year -= days_in_next_year"),
+  canary=True, note="revert of fix D1")
+B("c01-week-carry-next-year", ["C01", "C06", "C20"], ["R09"],
+  ("data", "weeks_in_this_year = get_weeks_in_year(self._year)\n",
+   "weeks_in_this_year = get_weeks_in_year(self._year + 1)\n"))
+B("c01-ordinal-borrow-this-year", ["C01", "C06", "C20"], ["R09"],
+  ("data", "days_in_last_year = get_days_in_year(self._year - 1)",
+   "days_in_last_year = get_days_in_year(self._year)"))
+B("c01-week-borrow-after-decrement", ["C01", "C06", "C20"], ["R09"],
+  ("data", "                weeks_in_last_year = get_weeks_in_year(self._year - 1)\n"
+           "                self._week_of_year += weeks_in_last_year\n"
+           "                self._year -= 1\n",
+   "                self._year -= 1\n"
+   "                weeks_in_last_year = get_weeks_in_year(self._year - 1)\n"
+   "                self._week_of_year += weeks_in_last_year\n"))
+B("c01-ordinal-carry-uses-weeks", ["C01", "C06", "C20"], ["R10", "R09"],
+  ("data", "            while self._day_of_year > get_days_in_year(self._year):\n"
+           "                days_in_this_year = get_days_in_year(self._year)",
+   "            while self._day_of_year > get_days_in_year(self._year):\n"
+   "                days_in_this_year = get_weeks_in_year(self._year)"))
+B("c01-hour-block-before-minute-block", ["C01", "C06", "C20"], ["R09.carry-order"],
+  (lambda texts: _swap_blocks(
+      texts, "data",
+      "        if self._minute_of_hour is not None:\n"
+      "            num_hours, minutes = divmod(self._minute_of_hour,\n"
+      "                                        CALENDAR.MINUTES_IN_HOUR)\n"
+      "            self._hour_of_day += num_hours\n"
+      "            self._minute_of_hour = minutes\n",
+      "        if self._hour_of_day is not None:\n"
+      "            num_days, hours = divmod(self._hour_of_day, CALENDAR.HOURS_IN_DAY)\n"
+      "            num_days = int(num_days)\n"
+      "            if self._day_of_week is not None:\n"
+      "                self._day_of_week += num_days\n"
+      "            elif self._day_of_month is not None:\n"
+      "                self._day_of_month += num_days\n"
+      "            elif self._day_of_year is not None:\n"
+      "                self._day_of_year += num_days\n"
+      "            self._hour_of_day = hours\n")))
+K("c01k-rename-carry-temp",
+  ("data", "                days_in_this_year = get_days_in_year(self._year)\n"
+           "                self._day_of_year -= days_in_this_year",
+   "                n_days = get_days_in_year(self._year)\n"
+   "                self._day_of_year -= n_days"))
+K("c01k-inline-carry-temp",
+  ("data", "                days_in_this_year = get_days_in_year(self._year)\n"
+           "                self._day_of_year -= days_in_this_year",
+   "                self._day_of_year -= get_days_in_year(self._year)"))
+K("c01k-carry-after-year-step",
+  ("data", "                days_in_this_year = get_days_in_year(self._year)\n"
+           "                self._day_of_year -= days_in_this_year\n"
+           "                self._year += 1\n",
+   "                self._year += 1\n"
+   "                self._day_of_year -= get_days_in_year(self._year - 1)\n"))
+# --- R11 leap polarity (6 sites, both directions)
+B("c05-leap-swap-add-months", ["C05"], ["R11"],
+  (lambda texts: _nth_replace(
+      texts, "data",
+      "                max_day_in_new_month = (\n"
+      "                    CALENDAR.DAYS_IN_MONTHS[month_index])",
+      "                max_day_in_new_month = (\n"
+      "                    CALENDAR.DAYS_IN_MONTHS_LEAP[month_index])", 0)),
+  canary=True, note="the property's own example")
+B("c05-leap-swap-add-years", ["C05"], ["R11"],
+  ("data", "                    max_day_in_new_month = (\n"
+           "                        CALENDAR.DAYS_IN_MONTHS_LEAP[month_index])",
+   "                    max_day_in_new_month = (\n"
+   "                        CALENDAR.DAYS_IN_MONTHS[month_index])"))
+B("c01-leap-swap-tick-over-dom", ["C01", "C05", "C06"], ["R11"],
+  ("data", "                max_day_in_month = CALENDAR.DAYS_IN_MONTHS_LEAP[month_index]",
+   "                max_day_in_month = CALENDAR.DAYS_IN_MONTHS[month_index]"))
+B("c03-leap-swap-days-in-year", ["C03"], ["R11"],
+  ("data", "        return CALENDAR.DAYS_IN_YEAR_LEAP\n    return CALENDAR.DAYS_IN_YEAR",
+   "        return CALENDAR.DAYS_IN_YEAR\n    return CALENDAR.DAYS_IN_YEAR_LEAP"))
+B("c03-leap-swap-days-in-month", ["C03"], ["R11"],
+  ("data", "        return CALENDAR.DAYS_IN_MONTHS_LEAP[month_index]\n    return CALENDAR.DAYS_IN_MONTHS[month_index]",
+   "        return CALENDAR.DAYS_IN_MONTHS[month_index]\n    return CALENDAR.DAYS_IN_MONTHS[month_index]"))
+B("c03-leap-swap-iter-months", ["C03"], ["R11"],
+  ("data", "    source = CALENDAR.INDEXED_DAYS_IN_MONTHS\n    if is_leap_year:\n        source = CALENDAR.INDEXED_DAYS_IN_MONTHS_LEAP",
+   "    source = CALENDAR.INDEXED_DAYS_IN_MONTHS_LEAP\n    if is_leap_year:\n        source = CALENDAR.INDEXED_DAYS_IN_MONTHS"))
+B("c03-leap-negated-test", ["C03"], ["R11"],
+  ("data", "    if get_is_leap_year(year):\n        return CALENDAR.DAYS_IN_YEAR_LEAP",
+   "    if not get_is_leap_year(year):\n        return CALENDAR.DAYS_IN_YEAR_LEAP"))
+K("c03k-leap-negated-polarity",
+  ("data", "    if get_is_leap_year(year):\n        return CALENDAR.DAYS_IN_YEAR_LEAP\n    return CALENDAR.DAYS_IN_YEAR",
+   "    if not get_is_leap_year(year):\n        return CALENDAR.DAYS_IN_YEAR\n    return CALENDAR.DAYS_IN_YEAR_LEAP"))
+K("c05k-leap-ifexp",
+  ("data", "            if get_is_leap_year(new._year):\n"
+           "                max_day_in_new_month = (\n"
+           "                    CALENDAR.DAYS_IN_MONTHS_LEAP[month_index])\n"
+           "            else:\n"
+           "                max_day_in_new_month = (\n"
+           "                    CALENDAR.DAYS_IN_MONTHS[month_index])\n",
+   "            max_day_in_new_month = (\n"
+   "                CALENDAR.DAYS_IN_MONTHS_LEAP[month_index]\n"
+   "                if get_is_leap_year(new._year)\n"
+   "                else CALENDAR.DAYS_IN_MONTHS[month_index])\n"))
+# --- R10 field / length agreement
+B("c05-week53-clamp-days-in-year", ["C05"], ["R10"],
+  ("data", "                max_weeks_in_year = get_weeks_in_year(new._year)",
+   "                max_weeks_in_year = get_days_in_year(new._year)"))
+B("c05-clamp-old-year", ["C05"], ["R10"],
+  ("data", "                max_days_in_year = get_days_in_year(new._year)",
+   "                max_days_in_year = get_days_in_year(self._year)"))
+B("c05-clamp-old-year-leap-test", ["C05"], ["R10"],
+  (lambda texts: _nth_replace(
+      texts, "data", "            if get_is_leap_year(new._year):",
+      "            if get_is_leap_year(self._year):", 1)))
+B("c09-doy-bounded-by-weeks", ["C09"], ["R10"],
+  ("data", "min_val=1, max_val=get_days_in_year(self._year))",
+   "min_val=1, max_val=get_weeks_in_year(self._year))"))
+
+
+def _nth_replace(texts, mod, old, new, n):
+    src = texts[mod]
+    idx = -1
+    for _ in range(n + 1):
+        idx = src.find(old, idx + 1)
+        if idx < 0:
+            raise LookupError(old)
+    texts[mod] = src[:idx] + new + src[idx + len(old):]
+    return texts
+
+
+def _swap_blocks(texts, mod, a, b):
+    src = texts[mod]
+    ia, ib = src.find(a), src.find(b)
+    if ia < 0 or ib < 0 or ia + len(a) != ib:
+        raise LookupError("adjacent blocks")
+    texts[mod] = src[:ia] + b + a + src[ib + len(b):]
+    return texts
